@@ -13,6 +13,9 @@
 //	          fault sequences (reader fails after k bytes, writer fails at offset k)
 //	garbage   arbitrary and near-valid input into all five decryption entry points
 //	openssl   the openssl CLI as external oracle in both directions (skipped if absent)
+//	wrapped-interop  Decrypt on base64 laid out in lines of 64 as `openssl enc -a` prints it
+//	          (independent derivation on every case, the openssl binary on a sample)
+//	long-args secrets / additional data of hundreds to thousands of bytes, altered in the tail
 //	*/checkptr  cbc, gcm and stream again in a -race (checkptr) build
 package main
 
@@ -323,6 +326,7 @@ func (t sut) encrypt(p, s []byte, combo int) (out []byte, err error, ok bool) {
 		}
 	})
 	t.c.Add("calls_Encrypt", 1)
+	t.c.Add(tcEncrypt[combo&3], 1)
 	return
 }
 
@@ -343,6 +347,7 @@ func (t sut) decrypt(ct, s []byte, combo int) (out []byte, err error, ok bool) {
 		}
 	})
 	t.c.Add("calls_Decrypt", 1)
+	t.c.Add(tcDecrypt[combo&3], 1)
 	if ok && (!bytes.Equal(cc, ct) || !bytes.Equal(sc, s)) {
 		t.c.Failf("input-modified/Decrypt", "Decrypt overwrote its caller's message or secret buffer (a message must stay decryptable, e.g. to try another secret): message now %+q", string(cc))
 		ok = false
@@ -367,6 +372,7 @@ func (t sut) rawCBCEnc(p, s []byte, combo int) (out []byte, err error, ok bool) 
 		}
 	})
 	t.c.Add("calls_SaltBySecretCBCEncrypt", 1)
+	t.c.Add(tcRawCBCEnc[combo&3], 1)
 	return
 }
 
@@ -383,6 +389,7 @@ func (t sut) rawCBCDec(raw, s []byte, combo int) (out []byte, err error, ok bool
 			out, err = cryptz.SaltBySecretCBCDecrypt(rc, sc, reuse)
 		}
 	})
+	t.c.Add(tcRawCBCDec[(combo>>1)&1], 1)
 	if reuse {
 		t.c.Add("calls_SaltBySecretCBCDecrypt_reuse", 1)
 	} else {
@@ -416,6 +423,7 @@ func (t sut) gcmEncrypt(p, s, a []byte, combo int) (out []byte, err error, ok bo
 		}
 	})
 	t.c.Add("calls_GCMEncrypt", 1)
+	t.c.Add(tcGCMEncrypt[combo&7], 1)
 	return
 }
 
@@ -444,6 +452,7 @@ func (t sut) gcmDecrypt(ct, s, a []byte, combo int) (out []byte, err error, ok b
 		}
 	})
 	t.c.Add("calls_GCMDecrypt", 1)
+	t.c.Add(tcGCMDecrypt[combo&7], 1)
 	if ok && (!bytes.Equal(cc, ct) || !bytes.Equal(sc, s) || !bytes.Equal(ac, a)) {
 		t.c.Failf("input-modified/GCMDecrypt", "GCMDecrypt overwrote its caller's message, secret or additional-data buffer (a message must stay decryptable, e.g. to try another secret): message now %+q", string(cc))
 		ok = false
@@ -476,6 +485,7 @@ func (t sut) rawGCMEnc(p, s, a []byte, combo int) (out []byte, err error, ok boo
 		}
 	})
 	t.c.Add("calls_SaltBySecretGCMEncrypt", 1)
+	t.c.Add(tcRawGCMEnc[combo&7], 1)
 	return
 }
 
@@ -497,6 +507,7 @@ func (t sut) rawGCMDec(raw, s, a []byte, combo int) (out []byte, err error, ok b
 			out, err = cryptz.SaltBySecretGCMDecrypt(rc, string(sc), string(ac), reuse)
 		}
 	})
+	t.c.Add(tcRawGCMDec[(combo>>1)&3], 1)
 	if reuse {
 		t.c.Add("calls_SaltBySecretGCMDecrypt_reuse", 1)
 	} else {
@@ -515,6 +526,7 @@ func (t sut) encStream(w io.Writer, r io.Reader, s []byte, asString bool) (err e
 		}
 	})
 	t.c.Add("calls_EncryptStreamTo", 1)
+	t.c.Add(tcEncStream[b2i(asString)], 1)
 	return
 }
 
@@ -528,6 +540,7 @@ func (t sut) decStream(w io.Writer, r io.Reader, s []byte, asString bool) (err e
 		}
 	})
 	t.c.Add("calls_DecryptStreamTo", 1)
+	t.c.Add(tcDecStream[b2i(asString)], 1)
 	return
 }
 
@@ -549,6 +562,21 @@ func judgeCBC(c *ev.Case, api, input fmt.Stringer, got []byte, err error, refPT 
 		c.Add("cbc_judged_valid", 1)
 	} else {
 		c.Add("cbc_judged_invalid", 1)
+	}
+	return true
+}
+
+// judgeLooseCBC: Decrypt on a text about which the statement does not say whether
+// it is to be accepted. Rejecting is fine; accepting is fine unless the text
+// carries a valid message and something else comes back.
+func judgeLooseCBC(c *ev.Case, api, input fmt.Stringer, got []byte, err error, refPT []byte, refBad, loose string) bool {
+	if loose != "crlf" && err == nil && refBad == "" && !bytes.Equal(got, refPT) {
+		c.Failf("cbc-wrong-plaintext", "%s returned %s on %s; the message in it decrypts to %s", api, q(got), input, q(refPT))
+		return false
+	}
+	c.Add("cbc_no_verdict_"+loose, 1)
+	if err == nil {
+		c.Add("cbc_no_verdict_"+loose+"_accepted", 1)
 	}
 	return true
 }
@@ -581,6 +609,17 @@ func main() {
 	r.Cases("secret-buffer-reuse", r.N(4000, 150000), ev.Opt{HangViolation: true, Serial: true}, secretReuseCase)
 	r.Cases("big", r.N(12, 300), ev.Opt{Workers: 6, MaxCaseSeconds: 300}, bigCase)
 	r.CasesProc("cold-start", 8, ev.Opt{Procs: 8}, coldCase)
+	r.Cases("wrapped-interop", r.N(1500, 60000), ev.Opt{HangViolation: true, MaxCaseSeconds: 120, Workers: 16}, wrappedCase)
+	r.Cases("long-args", r.N(500, 20000), hv, longCase)
+	r.Require("wrapped_decrypted", 1200)
+	r.Require("wrapped_multi_line", 800)
+	r.Require("wrapped_three_or_more_lines", 500)
+	r.Require("wrapped_last_line_full", 30)
+	r.Require("long_secret_cases", 250)
+	r.Require("long_ad_cases", 250)
+	r.Require("long_secret_altered_cbc", 1500)
+	r.Require("long_secret_altered_gcm", 1500)
+	r.Require("long_ad_altered", 1500)
 	r.Require("secret_buffer_reuse_cases", 2000)
 	r.Require("big_cases", 10)
 	r.Require("cold_start_cases", 8)
@@ -626,9 +665,13 @@ func main() {
 	if opensslPath != "" {
 		r.Require("openssl_decrypted_golib", 200)
 		r.Require("golib_decrypted_openssl", 200)
+		r.Require("golib_decrypted_openssl_wrapped", 100)
+		r.Require("golib_decrypted_openssl_multi_line", 50)
 	} else {
 		r.Add("openssl_binary_absent", 1)
 	}
+	requireAuditFloors(r)
+	r.Assume("white space around an otherwise untouched text, and base64 whose last quantum carries non-zero trailing bits, are outside the statement: golib may accept or reject them (an accepted one must yield the right plaintext)")
 	r.Assume("the high-level entry points leave the caller's message, secret and additional-data buffers intact (a message may be decrypted more than once, e.g. when trying several secrets), and use the secret bytes as they are at the time of each call")
 	r.Finish()
 }
